@@ -520,7 +520,8 @@ Lemma quad_core (a b c : C) : eps <= / 100 ->
     (1 - eps) * (Cmod b * Cmod b + Cmod sh * Cmod sh) <= 4 * (Cmod qx * Cmod qx) /\
     q_q a b c = (qx * rho)%C /\ near rho Xq /\
     Cmod (qx * qx + b * qx + a * c)%C
-      <= (X5 - 1) / (1 - eps) * (Cmod qx * Cmod qx) + (X5 - 1) * (Cmod a * Cmod c).
+      <= (X5 - 1) / (1 - eps) * (Cmod qx * Cmod qx) + (X5 - 1) * (Cmod a * Cmod c) /\
+    sh = fsqrt (q_disc a b c) /\ sg = q_sgn a b c.
 Proof.
   intros He X5 Xq.
   (* the discriminant and its square root *)
@@ -602,7 +603,7 @@ Proof.
   exists sh, sg, qx, (ra * (C1 + d7) * (C1 + d8))%C.
   split; [exact Hsg|]. split; [reflexivity|]. split; [exact HD|].
   split; [rewrite <- Mm; rewrite Mq in NC; lra|].
-  split; [|split; [|exact HE]].
+  split; [|split; [|split; [exact HE|split; reflexivity]]].
   - unfold q_q. fold sh. fold sg. rewrite E8, E7, E6, Era. unfold qx. ring.
   - unfold Xq. repeat apply near_mul; try assumption; apply near_1pd; assumption.
 Qed.
@@ -695,7 +696,7 @@ Theorem quadratic_residual_lemma (a b c : C) : a <> C0 -> eps <= / 100 ->
     forall x : C, x = r0 \/ x = r1 -> Cmod (qval a b c x) <= 16 * eps * qsize a b c x.
 Proof.
   intros Ha He. rewrite quadratic_solve_round_eq.
-  destruct (quad_core a b c He) as (sh & sg & qx & rho & _ & _ & _ & _ & Eq & Hr & HE).
+  destruct (quad_core a b c He) as (sh & sg & qx & rho & _ & _ & _ & _ & Eq & Hr & HE & _ & _).
   destruct (rel_mult eps _ _ eps_nonneg (fdiv_ok (q_q a b c) a Ha)) as (d9 & D9 & E9).
   assert (B0 : Cmod (qval a b c (fdiv (q_q a b c) a)) <= 16 * eps * qsize a b c (fdiv (q_q a b c) a)).
   { rewrite E9, Eq. apply root0_bound; assumption. }
@@ -738,7 +739,7 @@ Theorem quadratic_q0_round_lemma (a b c : C) : a <> C0 -> eps <= / 100 ->
 Proof.
   intros Ha He.
   assert (Dir : q_q a b c = C0 -> b = C0 /\ c = C0).
-  { intros Zq. destruct (quad_core a b c He) as (sh & sg & qx & rho & _ & _ & _ & NC & Eq & Hr & HE).
+  { intros Zq. destruct (quad_core a b c He) as (sh & sg & qx & rho & _ & _ & _ & NC & Eq & Hr & HE & _ & _).
     destruct (numeric_bounds eps (conj eps_nonneg He)) as (N1 & N2 & N3 & N4 & N5).
     assert (Zx : qx = C0).
     { destruct (Ceq_dec qx C0) as [Z|NZ]; [exact Z|]. exfalso.
@@ -857,7 +858,7 @@ Proof.
     rewrite !Cmod_0. split; nra. }
   rewrite quadratic_solve_round_eq.
   destruct (Ceq_dec (q_q a b c) C0) as [Z|_]; [contradiction|].
-  destruct (quad_core a b c He) as (sh & sg & qx & rho & Hsg & Eqx & HD & NC & Eq & Hr & HE).
+  destruct (quad_core a b c He) as (sh & sg & qx & rho & Hsg & Eqx & HD & NC & Eq & Hr & HE & _ & _).
   destruct (numeric_bounds eps (conj eps_nonneg He)) as (N1 & N2 & N3 & N4 & N5).
   set (X5 := (1 + eps) * (1 + eps) * (1 + eps) * (1 + eps) * (1 + eps)) in *.
   set (Xq := (1 + eps * (1 + eps)) * (1 + eps) * (1 + eps)) in *.
@@ -1057,4 +1058,34 @@ Proof.
               (o_kabsA O) (o_kdivr O) (o_kltb O) (o_kleb O) (o_pow O) (o_polar O) (o_add O) (o_sub O) (o_mul O) (o_div O)
               (o_scale O) (o_sqrt O) Ha Hs Hm Hd Hsc Hsq a b c Hnz He) as (r0 & r1 & db & dc & E & H).
   exists r0, r1, db, dc. split; [|exact H]. unfold RoundRAo. rewrite poly_solve_deg2_eq, E. reflexivity.
+Qed.
+
+(* the intermediate values of the model, bundled (for Proofs/RootsRoundFwd.v) *)
+Definition o_sh (O : RoundOps) (a b c : C) : C := o_sqrt O (q_disc (o_sub O) (o_mul O) (o_scale O) a b c).
+Definition o_sg (O : RoundOps) (a b c : C) : R := q_sgn (o_sub O) (o_mul O) (o_scale O) (o_sqrt O) a b c.
+Definition o_q (O : RoundOps) (a b c : C) : C := q_q (o_add O) (o_sub O) (o_mul O) (o_scale O) (o_sqrt O) a b c.
+
+Lemma quad_core_o (eps : R) (O : RoundOps) (a b c : C) : 0 <= eps <= / 100 -> std_model eps O ->
+  let X5 := (1 + eps) * (1 + eps) * (1 + eps) * (1 + eps) * (1 + eps) in
+  let Xq := (1 + eps * (1 + eps)) * (1 + eps) * (1 + eps) in
+  let sh := o_sh O a b c in let sg := o_sg O a b c in
+  let qx := ((b + sh * RtoC sg) * RtoC (- / 2))%C in
+  (sg = 1 \/ sg = Ropp 1) /\
+  Cmod (sh * sh - qdisc a b c)%C <= (X5 - 1) * (Cmod b * Cmod b + 4 * (Cmod a * Cmod c)) /\
+  (1 - eps) * (Cmod b * Cmod b + Cmod sh * Cmod sh) <= 4 * (Cmod qx * Cmod qx) /\
+  exists rho : C, o_q O a b c = (qx * rho)%C /\ near rho Xq.
+Proof.
+  intros [He0 He] (Ha & Hs & Hm & Hd & Hsc & Hsq) X5 Xq sh sg qx.
+  destruct (quad_core eps He0 (o_add O) (o_sub O) (o_mul O) (o_scale O) (o_sqrt O) Ha Hs Hm Hsc Hsq a b c He)
+    as (sh' & sg' & qx' & rho & Hsg & Eqx & HD & NC & Eq & Hr & HE & Esh & Esg).
+  fold (o_sh O a b c) in Esh. fold (o_sg O a b c) in Esg. fold sh in Esh. fold sg in Esg. subst sh' sg'.
+  fold qx in Eqx. subst qx'.
+  split; [exact Hsg|]. split; [exact HD|]. split; [exact NC|]. exists rho. split; assumption.
+Qed.
+
+Lemma poly_solve_deg2_o_eq (eps : R) (O : RoundOps) (a b c : C) :
+  poly_solve (RoundRAo eps O) [c; b; a] false =
+  Ok ([o_div O (o_q O a b c) a; if Ceq_dec (o_q O a b c) C0 then o_div O (o_q O a b c) a else o_div O c (o_q O a b c)], []).
+Proof.
+  unfold RoundRAo. rewrite poly_solve_deg2_eq, quadratic_solve_round_eq. reflexivity.
 Qed.
